@@ -291,3 +291,253 @@ Proof.
   destruct (dstep (drun s0' pre) (DoRunOnce pushes (ArmControl send))) as [sa e] eqn:E. cbn [fst].
   destruct (connect_dropped_frees_slot _ _ _ _ _ _ _ _ Hinvb Hd E) as (_ & _ & A & B). auto.
 Qed.
+
+(* ------------------------------------------------------------------ accept side: dead acceptors *)
+(* the acceptors waiting, oldest first: next_available_acceptor, then the channel *)
+Definition accq (s : dstate) : list Z :=
+  (match d_next_acc s with Some a => [a] | None => [] end) ++ d_chan s.
+
+(* the fields that decide whether a SYN can be matched *)
+Definition same_core (s s' : dstate) : Prop :=
+  d_streams s' = d_streams s /\ d_max_streams s' = d_max_streams s /\
+  d_dead_acceptors s' = d_dead_acceptors s /\ d_syns s' = d_syns s.
+
+Lemma same_core_refl s : same_core s s.
+Proof. unfold same_core. repeat split. Qed.
+Lemma same_core_trans a b c : same_core a b -> same_core b c -> same_core a c.
+Proof. unfold same_core. intros H1 H2. repeat split; intuition congruence. Qed.
+
+Lemma same_core_full s s' : same_core s s' -> streams_full s' = streams_full s.
+Proof. intros (A & B & _). unfold streams_full. rewrite A, B. reflexivity. Qed.
+Lemma same_core_has s s' k : same_core s s' -> has_stream s' k = has_stream s k.
+Proof. intros (A & _). unfold has_stream, find_stream. rewrite A. reflexivity. Qed.
+
+Lemma try_next_accq s x q : accq s = x :: q ->
+  exists s1, try_next_acceptor s = (s1, Some x) /\ accq s1 = q /\ same_core s s1.
+Proof.
+  unfold accq, try_next_acceptor. destruct (d_next_acc s) as [a|] eqn:En; cbn [app].
+  - intro H; injection H as -> Hq. exists (upd_acc s None (d_chan s)). split; [reflexivity|].
+    dsimpl. split; [exact Hq|]. unfold same_core; dsimpl. repeat split.
+  - intro H. rewrite H. exists (upd_acc s None q). split; [reflexivity|]. dsimpl.
+    split; [reflexivity|]. unfold same_core; dsimpl. repeat split.
+Qed.
+
+Lemma mem_z_true x l : In x l -> mem_z x l = true.
+Proof. intro H. unfold mem_z. apply existsb_exists. exists x. split; [exact H|apply Z.eqb_refl]. Qed.
+
+Lemma mem_z_false_iff x l : ~ In x l -> mem_z x l = false.
+Proof.
+  intro H. destruct (mem_z x l) eqn:E; [|reflexivity]. exfalso. apply H.
+  unfold mem_z in E. apply existsb_exists in E. destruct E as (y & Hy & Hxy). apply Z.eqb_eq in Hxy. congruence.
+Qed.
+
+Lemma next_random_core s : same_core s (fst (next_random s)) /\ accq (fst (next_random s)) = accq s.
+Proof.
+  unfold next_random, same_core, accq. destruct (d_random s); cbn [fst]; dsimpl; repeat split.
+Qed.
+
+(* a dead acceptor is dropped and consumes no request *)
+Lemma match_syn_dead s y a :
+  streams_full s = false -> has_stream s (syn_key y) = false -> In a (d_dead_acceptors s) ->
+  match_syn_with_accept s y a = (fst (next_random s), MrReceiverDead, []).
+Proof.
+  intros Hf Hh Hd. unfold match_syn_with_accept. fold (syn_key y). rewrite Hf, Hh.
+  destruct (next_random s) as [s1 x] eqn:Er. cbn [fst].
+  destruct (next_random_keeps _ _ _ Er) as ((_ & _ & _ & K4 & _) & _).
+  rewrite (mem_z_true a (d_dead_acceptors s1)) by (rewrite K4; exact Hd). reflexivity.
+Qed.
+
+(* a live one gets the connection *)
+Lemma match_syn_live s y a :
+  streams_full s = false -> has_stream s (syn_key y) = false -> ~ In a (d_dead_acceptors s) ->
+  exists s2, match_syn_with_accept s y a = (s2, MrMatched, [EvAccepted a (syn_key y)]) /\
+             accq s2 = accq s /\ d_syns s2 = d_syns s.
+Proof.
+  intros Hf Hh Hd. unfold match_syn_with_accept. fold (syn_key y). rewrite Hf, Hh.
+  destruct (next_random s) as [s1 x] eqn:Er.
+  destruct (next_random_keeps _ _ _ Er) as ((_ & _ & _ & K4 & _) & _).
+  destruct (next_random_same _ _ _ Er) as (_ & _ & R3 & R4 & R5 & _).
+  rewrite (mem_z_false_iff a (d_dead_acceptors s1)) by (rewrite K4; exact Hd).
+  eexists. split; [reflexivity|]. unfold accq; dsimpl. rewrite R4, R5. auto.
+Qed.
+
+(* what "a is the oldest live acceptor and SYN y can be served" means *)
+Definition serve_cond (s : dstate) (y : syn) (dead : list Z) (a : Z) (rest : list Z) : Prop :=
+  accq s = dead ++ a :: rest /\ (forall x, In x dead -> In x (d_dead_acceptors s)) /\
+  ~ In a (d_dead_acceptors s) /\ streams_full s = false /\ has_stream s (syn_key y) = false.
+
+Lemma serve_cond_core s s' y dead a rest q :
+  serve_cond s y dead a rest -> same_core s s' -> accq s' = q -> forall dead', q = dead' ++ a :: rest ->
+  (forall x, In x dead' -> In x dead) -> serve_cond s' y dead' a rest.
+Proof.
+  intros (C1 & C2 & C3 & C4 & C5) Hc Hq dead' -> Hsub. pose proof Hc as (_ & _ & D & _).
+  unfold serve_cond. rewrite (same_core_full _ _ Hc), (same_core_has _ _ _ Hc), D. auto.
+Qed.
+
+(* on_syn: the SYN skips every dead acceptor ahead and goes to the oldest live one *)
+Lemma on_syn_loop_serves y a rest : forall dead s fuel,
+  serve_cond s y dead a rest -> (length dead < fuel)%nat ->
+  exists s', on_syn_loop fuel s y = (s', true, [EvAccepted a (syn_key y)]) /\
+             accq s' = rest /\ d_syns s' = d_syns s.
+Proof.
+  induction dead as [|x dead IH]; intros s fuel Hc Hfuel; (destruct fuel as [|fuel]; [cbn in Hfuel; lia|]);
+    cbn [on_syn_loop]; pose proof Hc as (C1 & C2 & C3 & C4 & C5); cbn [app] in C1.
+  - destruct (try_next_accq _ _ _ C1) as (s1 & -> & Hq & Hcore).
+    assert (D4 : streams_full s1 = false) by (rewrite (same_core_full _ _ Hcore); exact C4).
+    assert (D5 : has_stream s1 (syn_key y) = false) by (rewrite (same_core_has _ _ _ Hcore); exact C5).
+    assert (D3 : ~ In a (d_dead_acceptors s1)) by (destruct Hcore as (_ & _ & -> & _); exact C3).
+    destruct (match_syn_live s1 y a D4 D5 D3) as (s2 & -> & Hq2 & Hs2).
+    exists s2. split; [reflexivity|]. destruct Hcore as (_ & _ & _ & Hs1). split; congruence.
+  - destruct (try_next_accq _ _ _ C1) as (s1 & -> & Hq & Hcore).
+    assert (Hx : In x (d_dead_acceptors s1)).
+    { destruct Hcore as (_ & _ & -> & _). apply C2. left; reflexivity. }
+    pose proof Hcore as Hcore0.
+    destruct Hcore as (E1 & E2 & E3 & E4).
+    assert (F1 : streams_full s1 = false) by (rewrite (same_core_full _ _ Hcore0); exact C4).
+    assert (F2 : has_stream s1 (syn_key y) = false) by (rewrite (same_core_has _ _ _ Hcore0); exact C5).
+    rewrite (match_syn_dead s1 y x F1 F2 Hx).
+    destruct (next_random_core s1) as [Hcore2 Hq2].
+    assert (Hc' : serve_cond (fst (next_random s1)) y dead a rest).
+    { apply (serve_cond_core s _ y (x :: dead) a rest (dead ++ a :: rest) Hc).
+      - eapply same_core_trans; eauto.
+      - congruence.
+      - reflexivity.
+      - intros z Hz. right; exact Hz. }
+    destruct (IH _ fuel Hc' ltac:(cbn in Hfuel; lia)) as (s' & -> & A & B).
+    exists s'. split; [reflexivity|]. split; [exact A|].
+    destruct Hcore2 as (_ & _ & _ & G4). congruence.
+Qed.
+
+Lemma serve_cond_len s y dead a rest : serve_cond s y dead a rest -> (length dead <= length (d_chan s))%nat.
+Proof.
+  intros (C1 & _). assert (H : length (accq s) = (length dead + S (length rest))%nat)
+    by (rewrite C1, app_length; reflexivity).
+  unfold accq in H. rewrite app_length in H. destruct (d_next_acc s); cbn [length] in H; lia.
+Qed.
+
+Lemma on_syn_serves_live s y dead a rest :
+  d_syns s = [] -> serve_cond s y dead a rest ->
+  exists s', on_syn s y = (s', [EvAccepted a (syn_key y)]) /\ accq s' = rest /\ d_syns s' = [].
+Proof.
+  intros Hs Hc. unfold on_syn. rewrite Hs.
+  pose proof (serve_cond_len _ _ _ _ _ Hc) as Hlen.
+  destruct (on_syn_loop_serves y a rest dead s (length (d_chan s) + 2) Hc ltac:(lia)) as (s' & -> & A & B).
+  exists s'. split; [reflexivity|]. split; [exact A|congruence].
+Qed.
+
+Lemma push_acceptors_accq : forall l s, exists ext, accq (fold_left push_acceptor l s) = accq s ++ ext.
+Proof.
+  induction l as [|x r IH]; intros s; cbn [fold_left]; [exists []; rewrite app_nil_r; reflexivity|].
+  destruct (IH (push_acceptor s x)) as [ext Hext]. rewrite Hext.
+  unfold push_acceptor, accq. destruct (_ <? _); dsimpl.
+  - exists ([x] ++ ext). rewrite !app_assoc. reflexivity.
+  - exists ext. reflexivity.
+Qed.
+
+(* A LIVE ACCEPTOR IS SERVED BY THE NEXT SYN WHEN NO OLDER LIVE ACCEPTOR EXISTS: nothing is
+   cached, every acceptor ahead of a was abandoned, the table has room and the SYN's key is
+   free.  The run_once that receives the SYN hands the connection to a; the abandoned acceptors
+   ahead of it are gone from the queue and consumed no request. *)
+Theorem live_acceptor_served_by_next_syn s pushes addr m dead a rest s' e :
+  d_inv s -> d_syns s = [] -> dm_type m = ST_SYN ->
+  find_stream s {| k_addr := addr; k_conn := dm_conn m |} = None ->
+  serve_cond s (syn_of addr m) dead a rest ->
+  dstep s (DoRunOnce pushes (ArmRecv addr (Some m))) = (s', e) ->
+  e = [EvAccepted a (syn_key (syn_of addr m))] /\ d_syns s' = [] /\
+  exists ext, accq s' = rest ++ ext.
+Proof.
+  intros Hinv Hs Ht Hfind Hc H.
+  rewrite dstep_run_once_eq, (cleanup_no_syns s Hs) in H.
+  set (s2 := fold_left push_acceptor pushes s) in *.
+  destruct (push_acceptors_accq pushes s) as [ext Hext]. fold s2 in Hext.
+  destruct (push_acceptors_same pushes s) as (P1 & _ & P3 & _ & _ & _ & P7 & _ & P9 & _). fold s2 in P1, P3, P7, P9.
+  assert (Hcore : same_core s s2) by (unfold same_core; auto).
+  pose proof Hc as (C1 & C2 & C3 & C4 & C5).
+  assert (Hc2 : serve_cond s2 (syn_of addr m) dead a (rest ++ ext)).
+  { unfold serve_cond. rewrite (same_core_full _ _ Hcore), (same_core_has _ _ _ Hcore), P9, Hext, C1.
+    rewrite <- app_assoc. cbn [app]. auto. }
+  cbn [arm_step] in H. unfold on_recv in H.
+  assert (Hf2 : find_stream s2 {| k_addr := addr; k_conn := dm_conn m |} = None)
+    by (unfold find_stream; rewrite P1; exact Hfind).
+  rewrite Hf2, Ht in H. fold (syn_of addr m) in H.
+  destruct (on_syn_serves_live s2 _ _ _ _ ltac:(congruence) Hc2) as (s3 & Hon & A & B).
+  rewrite Hon in H. injection H as <- <-. cbn [app]. split; [reflexivity|]. split; [exact B|]. eauto.
+Qed.
+
+(* the same from the backlog: the oldest cached SYN goes to the oldest live acceptor at the next
+   run_once, whatever arm fires *)
+Lemma cleanup_loop_serves y ys a rest : forall dead s fuel ev0,
+  d_syns s = y :: ys -> serve_cond s y dead a rest -> (length dead < fuel)%nat ->
+  exists s' evn, cleanup_loop fuel s ev0 = (s', ev0 ++ EvAccepted a (syn_key y) :: evn).
+Proof.
+  induction dead as [|x dead IH]; intros s fuel ev0 Hs Hc Hfuel; (destruct fuel as [|fuel]; [cbn in Hfuel; lia|]);
+    cbn [cleanup_loop]; rewrite Hs; pose proof Hc as (C1 & C2 & C3 & C4 & C5); cbn [app] in C1.
+  - assert (Hq0 : accq (upd_syns s ys) = a :: rest) by exact C1.
+    destruct (try_next_accq _ _ _ Hq0) as (s1 & -> & Hq & Hcore).
+    assert (Hcore0 : same_core s s1 \/ True) by (right; exact I).
+    destruct Hcore as (E1 & E2 & E3 & E4). dsimpl.
+    assert (F1 : streams_full s1 = false) by (unfold streams_full in *; rewrite E1, E2; exact C4).
+    assert (F2 : has_stream s1 (syn_key y) = false) by (unfold has_stream, find_stream in *; rewrite E1; exact C5).
+    destruct (match_syn_live s1 y a F1 F2 ltac:(rewrite E3; exact C3)) as (s2 & -> & _ & _).
+    destruct (cleanup_loop fuel s2 (ev0 ++ [EvAccepted a (syn_key y)])) as [s' ev'] eqn:El.
+    destruct (cleanup_loop_acc _ _ _ _ _ El) as (evn & -> & _).
+    exists s', evn. rewrite <- app_assoc. reflexivity.
+  - assert (Hq0 : accq (upd_syns s ys) = x :: dead ++ a :: rest) by exact C1.
+    destruct (try_next_accq _ _ _ Hq0) as (s1 & -> & Hq & Hcore).
+    destruct Hcore as (E1 & E2 & E3 & E4). dsimpl.
+    assert (F1 : streams_full s1 = false) by (unfold streams_full in *; rewrite E1, E2; exact C4).
+    assert (F2 : has_stream s1 (syn_key y) = false) by (unfold has_stream, find_stream in *; rewrite E1; exact C5).
+    assert (Hx : In x (d_dead_acceptors s1)) by (rewrite E3; apply C2; left; reflexivity).
+    rewrite (match_syn_dead s1 y x F1 F2 Hx).
+    destruct (next_random_core s1) as [(G1 & G2 & G3 & G4) Hq2].
+    set (s3 := fst (next_random s1)) in *.
+    assert (Hs3 : d_syns (upd_syns s3 (y :: d_syns s3)) = y :: ys) by (dsimpl; congruence).
+    assert (Hc3 : serve_cond (upd_syns s3 (y :: d_syns s3)) y dead a rest).
+    { unfold serve_cond.
+      change (accq (upd_syns s3 (y :: d_syns s3))) with (accq s3).
+      change (d_dead_acceptors (upd_syns s3 (y :: d_syns s3))) with (d_dead_acceptors s3).
+      change (streams_full (upd_syns s3 (y :: d_syns s3))) with (streams_full s3).
+      change (has_stream (upd_syns s3 (y :: d_syns s3)) (syn_key y)) with (has_stream s3 (syn_key y)).
+      rewrite Hq2, Hq, G3, E3.
+      split; [reflexivity|]. split; [intros z Hz; apply C2; right; exact Hz|]. split; [exact C3|].
+      split; [unfold streams_full; rewrite G1, G2; exact F1|unfold has_stream, find_stream; rewrite G1; exact F2]. }
+    destruct (IH _ fuel ev0 Hs3 Hc3 ltac:(cbn in Hfuel; lia)) as (s' & evn & ->).
+    exists s', evn. reflexivity.
+Qed.
+
+Theorem live_acceptor_served_from_backlog s pushes arm0 y ys dead a rest s' e :
+  d_inv s -> d_syns s = y :: ys -> serve_cond s y dead a rest ->
+  dstep s (DoRunOnce pushes arm0) = (s', e) ->
+  exists ev, e = EvAccepted a (syn_key y) :: ev.
+Proof.
+  intros Hinv Hs Hc H. rewrite dstep_run_once_eq in H.
+  pose proof Hc as (_ & _ & _ & C4 & _).
+  pose proof (serve_cond_len _ _ _ _ _ Hc) as Hlen.
+  unfold cleanup_accept_queue in H. rewrite C4 in H.
+  destruct (cleanup_loop_serves y ys a rest dead s (length (d_syns s) + length (d_chan s) + 2) [] Hs Hc ltac:(lia))
+    as (s1 & evn & Hcl).
+  rewrite Hcl in H. destruct (arm_step _ arm0) as [s3 e3]. injection H as _ <-.
+  cbn [app]. eauto.
+Qed.
+
+(* ---- the channel position of an abandoned accept call is released only by the sweep ---- *)
+(* An abandoned accept call does NOT give its channel position back at once: it stays queued
+   until the next SYN (or cached SYN) sweeps it.  32 accept calls are queued and abandoned; the
+   33rd cannot enter the channel (in Rust: its `send().await` stays pending).  The next SYN
+   sweeps all 32 in one run_once and is cached; the 33rd call then gets in and the following
+   run_once serves it. *)
+Definition full_dead_ops : list dop :=
+  map DoPushAcceptor (map Z.of_nat (seq 1 32)) ++ map DoDropAcceptor (map Z.of_nat (seq 1 32)).
+Definition a_syn : dmsg := {| dm_type := ST_SYN; dm_conn := 50; dm_seq := 1000; dm_ack := 0 |}.
+
+Theorem dead_acceptor_position_held_until_sweep :
+  let s1 := drun (dstate_new 128 [7; 100; 200]) full_dead_ops in
+  let s2 := drun s1 [DoPushAcceptor 33] in
+  let '(s3, e3) := dstep s2 (DoRunOnce [] (ArmRecv 5 (Some a_syn))) in
+  let s4 := drun s3 [DoPushAcceptor 33] in
+  let '(s5, e5) := dstep s4 (DoRunOnce [] ArmAccept) in
+  length (d_chan s1) = 32%nat /\ d_chan s2 = d_chan s1 /\          (* refused: no room *)
+  e3 = [] /\ d_chan s3 = [] /\ length (d_syns s3) = 1%nat /\       (* swept, SYN cached *)
+  d_chan s4 = [33] /\                                              (* now it gets in *)
+  e5 = [EvAccepted 33 {| k_addr := 5; k_conn := 51 |}].            (* and is served *)
+Proof. vm_compute. repeat split. Qed.
